@@ -463,7 +463,8 @@ pub fn run(p: &Params) -> Report {
     for rep_i in 0..reps {
         for d in 0..=256u64 {
             if k % p.nshards == p.shard {
-                honest(p.shard_seed(0x11_0000 + rep_i * 1000 + d), d, &pl, &mut rep);
+                let seed = p.shard_seed(0x11_0000 + rep_i * 1000 + d);
+                crate::util::guarded(&mut rep, seed, |rep| honest(seed, d, &pl, rep));
             }
             k += 1;
         }
@@ -473,11 +474,13 @@ pub fn run(p: &Params) -> Report {
     let mut drng = Rng::new(p.shard_seed(0x11D));
     for i in 0..extra {
         let d = *drng.pick(&[256u64, 256, 255, 255, 254, 253, 252, 251, 250, 2, 1, 1, 0]);
-        honest(p.shard_seed(0x11E_0000 + i), d, &pl, &mut rep);
+        let seed = p.shard_seed(0x11E_0000 + i);
+        crate::util::guarded(&mut rep, seed, |rep| honest(seed, d, &pl, rep));
     }
     let n = p.budget(4_000, 300_000);
     for i in 0..n {
-        malicious(p.shard_seed(0x1B_0000 + i), &pl, &mut rep);
+        let seed = p.shard_seed(0x1B_0000 + i);
+        crate::util::guarded(&mut rep, seed, |rep| malicious(seed, &pl, rep));
     }
     rep.extra.insert("exhaustive_subspaces".into(), json!(["honest half: every log2 distance class 0..256 between lookup target and responder"]));
     rep
